@@ -587,23 +587,23 @@ func (w *World) BuildCtx(d CtxDesc) pongo2.Context {
 	next := &simUser{Name: []string{"Nx", "Ny<", "Nz"}[v], Age: 1, w: w}
 	st := &simUser{Name: []string{"Ann", "B&b", "Çé"}[v], Age: []int{30, 0, 7}[v], Tags: [][]string{{"t1", "t2", "t2"}, {}, {"z", "a"}}[v], Next: next, w: w}
 	ctx := pongo2.Context{
-		"s1":   []string{"hello <b>&", "wörld", ""}[v],
-		"s2":   []string{"abc", "x y z", "<i>"}[v],
-		"n1":   []int{3, 0, 7}[v],
-		"n2":   []int{5, 2, -1}[v],
-		"z":    0,
-		"f1":   []float64{1.5, 2.0, 0.25}[v],
-		"b1":   []bool{true, false, true}[v],
-		"nl":   nil,
-		"lst":  [][]int{{1, 2, 3}, {}, {5, 5}}[v],
-		"strs": [][]string{{"a", "b", "c"}, {"x"}, {"q", "a"}}[v],
-		"mp":   []map[string]any{{"k1": "v1", "k2": 2}, {"k1": "<v>"}, {"k1": "", "k3": 3.5, "k0": "z"}}[v],
-		"st":   st,
-		"strg": simStringer{[]string{"x", "<y>", ""}[v]},
-		"lz0":  "inc0.tpl",
-		"lz1":  "inc1.tpl",
+		"s1":        []string{"hello <b>&", "wörld", ""}[v],
+		"s2":        []string{"abc", "x y z", "<i>"}[v],
+		"n1":        []int{3, 0, 7}[v],
+		"n2":        []int{5, 2, -1}[v],
+		"z":         0,
+		"f1":        []float64{1.5, 2.0, 0.25}[v],
+		"b1":        []bool{true, false, true}[v],
+		"nl":        nil,
+		"lst":       [][]int{{1, 2, 3}, {}, {5, 5}}[v],
+		"strs":      [][]string{{"a", "b", "c"}, {"x"}, {"q", "a"}}[v],
+		"mp":        []map[string]any{{"k1": "v1", "k2": 2}, {"k1": "<v>"}, {"k1": "", "k3": 3.5, "k0": "z"}}[v],
+		"st":        st,
+		"strg":      simStringer{[]string{"x", "<y>", ""}[v]},
+		"lz0":       "inc0.tpl",
+		"lz1":       "inc1.tpl",
 		"lzmissing": "nope.tpl",
-		"fn_add": func(a, b int) int { return a + b },
+		"fn_add":    func(a, b int) int { return a + b },
 		"fn_maybe": func() (string, error) {
 			if d.MaybeFail {
 				return "", fmt.Errorf("fn_maybe failed (context says so)")
